@@ -11,6 +11,7 @@ import (
 	"bytes"
 	"encoding/hex"
 	"fmt"
+	"os"
 	"strings"
 
 	"verifharness/internal/core"
@@ -694,12 +695,16 @@ func v2Binding(r *core.Run, h string, master, sig []byte, ids [][]byte, world []
 }
 
 func run(r *core.Run) {
-	r.Rule = "3 identities × all ordered pairs × both envelopes × every reveal-type entry point (registry Process, AcraTranslator Decrypt/DecryptSym/DecryptSearchable/DecryptSymSearchable, column detector with/without compat wrapper incl. bare envelopes and junk around, blind-index check, de-tokenization) under the OTHER identity; key histories of 1–4 generations on both sides with the value written under any generation; key stores: fake (by-id map), real v1 directory (with/without cache), real v2 in-memory and directory; ids incl. prefix/suffix-related ones; colliding 2-byte key ids; missing/empty key sets; gRPC through the real TLS wrapper with a real handshake and forged ClientId fields; keystore.load-as by copying key files / rings between identities; TLS identities: certificate families built with crypto/x509 (ed25519 keys from the run's PRNG; same CN with another OU/O/serial, another CN only, identical DN under another serial / key, reordered or merged multi-valued attributes, escaped characters, empty subject, nil) in random sequences on ONE long-lived extractor in both modes; end to end: the REAL grpc_api.NewServer (UseConnectionClientID) and the HTTP service behind the production callback chain on unix sockets, three TLS clients (two relatives) connecting in random order, every RPC and the HTTP operations with forged/empty/foreign client ids; non-trivial = a value the owner can read back; distinct by (store, kind, pair, marker)"
-	identityCases(r)
-	serverCases(r)
-	fakeWorlds(r)
-	grpcCases(r)
-	translatorCases(r)
-	tokenCases(r)
-	realStores(r)
+	r.Rule = "3 identities × all ordered pairs × both envelopes × every reveal-type entry point (registry Process, AcraTranslator Decrypt/DecryptSym/DecryptSearchable/DecryptSymSearchable, column detector with/without compat wrapper incl. bare envelopes and junk around, blind-index check, de-tokenization) under the OTHER identity; key histories of 1–4 generations on both sides with the value written under any generation; key stores: fake (by-id map), real v1 directory (with/without cache), real v2 in-memory and directory; ids incl. prefix/suffix-related ones; colliding 2-byte key ids; missing/empty key sets; gRPC through the real TLS wrapper with a real handshake and forged ClientId fields; keystore.load-as by copying key files / rings between identities; TLS identities: certificate families built with crypto/x509 (ed25519 keys from the run's PRNG; same CN with another OU/O/serial, another CN only, identical DN under another serial / key, reordered or merged multi-valued attributes, escaped characters, empty subject, nil) in random sequences on ONE long-lived extractor in both modes; end to end: the REAL grpc_api.NewServer (UseConnectionClientID) and the HTTP service behind the production callback chain on unix sockets, three TLS clients (two relatives) connecting in random order, every RPC and the HTTP operations with forged/empty/foreign client ids, in three certificate chain shapes (clients issued by the root / by an intermediate CA / by an intermediate with every client appending client A's certificate), server Detokenize compared with the model given the world's tokenization history; certificate chains: root → 0–2 intermediates → client certificates (roles: client, no authentication usage, CA) sending the chain alone / + root / + another client's certificate / + an unrelated CA through ServerHandshake, WrapServer, GetClientIDFromTLSConn and GetClientIDFromConnection; tokenized columns: one table with columns configured with client_id none / A / B (+ a column without setting), sessions A, B, C, 5 token types × consistent/not, both statement encryptors with a scripted token generator (collisions, retries, failure) and both real proxies end to end with the real generator – every stored token read by every session through its own and other columns; non-trivial = a value the owner can read back; distinct by (store, kind, pair, marker)"
+	// VERIF_C02_ONLY=<group,…> (development aid; unset in every check run) restricts the run to the named groups
+	only := os.Getenv("VERIF_C02_ONLY")
+	for _, g := range []struct {
+		name string
+		f    func(*core.Run)
+	}{{"identity", identityCases}, {"chain", chainCases}, {"server", serverCases}, {"fake", fakeWorlds}, {"grpc", grpcCases}, {"translator", translatorCases},
+		{"tokens", tokenCases}, {"tokcol", tokColCases}, {"px", pxCases}, {"stores", realStores}} {
+		if only == "" || strings.Contains(","+only+",", ","+g.name+",") {
+			g.f(r)
+		}
+	}
 }
